@@ -409,6 +409,34 @@ def eff2(units, R):
                             if b.get('k') == 'ref' and b['n'] == d['n'] and b.get('dk') == 'local' \
                                     and callee_name(x) in u.functions:
                                 uses.append((n, x))
+            def reaches_member(h, idx, seen=()):
+                """can h (or a function it hands the parameter on to) touch member hm of *param idx?"""
+                if h.body is None or idx >= len(h.params) or h.name in seen:
+                    return h.body is None
+                pd_ = h.params[idx]['d']
+                for y in h.nodes():
+                    if y.get('k') == 'mem' and y['f'] == hm:
+                        b_ = _base_object(y)
+                        if b_.get('k') == 'ref' and b_.get('d') == pd_:
+                            return True
+                    if y.get('k') == 'call':
+                        for j_, a_ in enumerate(y.get('args', [])):
+                            b_ = _base_object(a_)
+                            if b_.get('k') == 'ref' and b_.get('d') == pd_:
+                                g_ = u.functions.get(callee_name(y))
+                                if g_ is None or reaches_member(g_, j_, seen + (h.name,)):
+                                    return True
+                    # the parameter copied into something else: give up (assume it can)
+                    if y.get('k') == 'bin' and y.get('op') == '=' and strip_casts(y['r']).get('k') == 'ref' and strip_casts(y['r']).get('d') == pd_:
+                        return True
+                return False
+            live = []
+            for (n, x) in uses:
+                h = u.functions[callee_name(x)]
+                idxs = [j_ for j_, a_ in enumerate(x['args']) if _base_object(a_).get('k') == 'ref' and _base_object(a_).get('n') == d['n']]
+                if any(reaches_member(h, j_) for j_ in idxs):
+                    live.append((n, x))
+            uses = live
             for (n, x) in uses:
                 ok = any(cfg.dominates(c, n.id) for c in copies)
                 R.ob('EFF2', fn, x, '%s.%s set from the table before %s' % (d['n'], hm, expr_str(x)[:50]), ok,
@@ -743,6 +771,41 @@ STATIC_POLICY = {
 PARSE_ENTRY = {'cJSON_Parse', 'cJSON_ParseWithOpts', 'cJSON_ParseWithLength', 'cJSON_ParseWithLengthOpts'}
 
 
+def _private_closure(u, names):
+    """`names` plus the static functions of u that only they (transitively) call and whose address is never taken: code of a
+    documented writer / accessor that was moved into a helper of its own is still that function's code."""
+    out = set(names)
+    callers = {}
+    taken = set()
+    for f in u.function_list:
+        if f.body is None:
+            continue
+        callee_ids = set()
+        for c in f.calls():
+            cn = callee_name(c)
+            if cn in u.functions:
+                callers.setdefault(cn, set()).add(f.name)
+                callee_ids.add(strip_casts(c['fn']).get('id'))
+        for x in f.nodes():
+            if x.get('k') == 'ref' and x.get('dk') == 'fn' and x.get('id') not in callee_ids:
+                taken.add(x.get('n'))
+    for g in u.globals:
+        if 'init' in g:
+            for x in walk(g['init']):
+                if x.get('k') == 'ref' and x.get('dk') == 'fn':
+                    taken.add(x.get('n'))
+    changed = True
+    while changed:
+        changed = False
+        for f in u.function_list:
+            if f.name in out or not f.static or f.name in taken or not callers.get(f.name):
+                continue
+            if callers[f.name] <= out:
+                out.add(f.name)
+                changed = True
+    return out
+
+
 def eff4(units, R):
     """Census of static-storage objects, their writers, and the transitive write set of the API."""
     all_units = list(units.values())
@@ -813,7 +876,7 @@ def eff4(units, R):
                      'written by %s: shared between threads without synchronisation' % sorted(w),
                      key='static:%s' % name, file=u.file, line=d['loc'][0])
             continue
-        allowed_w, allowed_r, reason = pol[1], pol[2], pol[3]
+        allowed_w, allowed_r, reason = _private_closure(u, pol[1]), (_private_closure(u, pol[2]) if pol[2] is not None else None), pol[3]
         R.ob('EFF4', lfn, None, 'documented mutable static %s' % name, True, reason, key='static:%s' % name,
              file=u.file, line=d['loc'][0])
         for fnn, hows in sorted(w.items()):
@@ -827,6 +890,16 @@ def eff4(units, R):
                      'documented accessor' if fnn in allowed_r else
                      'reads %s (a value another thread may have written) outside %s' % (name, sorted(allowed_r)),
                      key='access:%s' % name)
+            # the accessors are for the application: a library function that calls one computes its own result from a value
+            # another thread may have stored
+            for fn2 in u.function_list:
+                if fn2.name in allowed_r or fn2.body is None:
+                    continue
+                for c in fn2.calls():
+                    if callee_name(c) in allowed_r:
+                        R.ob('EFF4', fn2, c, 'no library function consults the accessor of %s' % name, False,
+                             '%s calls %s: what it goes on to compute depends on what another thread last stored in %s' % (
+                                 fn2.name, callee_name(c), name), key='accessor-call:%s:%s' % (name, fn2.name))
 
     # transitive: which public functions can reach a writer of each documented object
     g = call_graph(all_units)
@@ -917,7 +990,7 @@ def eff4_ir(ir, units, R):
                         nst += 1
                         base = gname.split('.')[-1]
                         pol = STATIC_POLICY.get(base)
-                        ok = pol is not None and cur in pol[1]
+                        ok = pol is not None and cur in _private_closure(units[uname], pol[1])
                         R.ob('EFF4-IR', cur, None, 'IR store into @%s' % gname, ok,
                              'in documented writer %s' % cur if ok else 'store outside the documented writers',
                              key='irstore:%s:%s' % (gname, cur), file=uname, line=0)
@@ -927,7 +1000,7 @@ def eff4_ir(ir, units, R):
                     nst += 1
                     gname = m2.group(1)
                     pol = STATIC_POLICY.get(gname.split('.')[-1])
-                    ok = pol is not None and cur in pol[1]
+                    ok = pol is not None and cur in _private_closure(units[uname], pol[1])
                     R.ob('EFF4-IR', cur, None, 'IR memcpy into @%s' % gname, ok, 'in %s' % cur,
                          key='irmemcpy:%s:%s' % (gname, cur), file=uname, line=0)
     R.floor('EFF4-IR', 'IR stores into mutable globals', nst, 2)
